@@ -1014,9 +1014,12 @@ func (c *Conn) NextReader() (messageType int, r io.Reader, err error) {
 	}
 
 	c.messageReader = nil
-	c.readLength = 0
 
 	for c.readErr == nil {
+		// The frames skipped here belong to a message the application
+		// abandoned; do not count them against the next message.
+		c.readLength = 0
+
 		frameType, err := c.advanceFrame()
 		if err != nil {
 			c.readErr = err
